@@ -8,6 +8,7 @@ import (
 	"os"
 	"path/filepath"
 	"strconv"
+	"strings"
 	"sync"
 
 	"verif/ev"
@@ -57,6 +58,7 @@ func walk3(path []string, in, p, e *jt.Node, f func(path []string, in, p, e *jt.
 // a tree with values from small pools of equal and near-duplicate strings.
 func dupify(rng *rand.Rand, t *jt.Node, pool, epool []string) *jt.Node {
 	c := t.Clone()
+	long := false
 	c.Walk(nil, func(_ []string, n *jt.Node) {
 		if n.T == nil || n.T.Role != jt.Sens || n.K != jt.Str || rng.Intn(2) == 0 {
 			return
@@ -66,7 +68,14 @@ func dupify(rng *rand.Rand, t *jt.Node, pool, epool []string) *jt.Node {
 			if len(n.S) > 0 && n.S[0] == '^' {
 				return
 			}
-			n.S = pool[rng.Intn(len(pool))]
+			v := pool[rng.Intn(len(pool))]
+			if len(v) > 1000 {
+				if long {
+					return
+				}
+				long = true
+			}
+			n.S = v
 		case "email":
 			n.S = epool[rng.Intn(len(epool))]
 		case "oid", "date", "b64":
@@ -118,12 +127,16 @@ func C10() int {
 		lr := rand.New(rand.NewSource(c.Seed*13 + int64(fi)))
 		tok := gg.Token()
 		hexid := gg.OID()
-		pool := []string{hexid, "2024-01-02T03:04:05.678Z", "QUJD" + tok, "Alice" + tok, "alice" + tok, "Alice" + tok + " ", " Alice" + tok, "Аlice" + tok, "Alice" + tok + "​", tok, tok + tok, "", "A", "a", "é" + tok, "é" + tok}
+		pool := []string{hexid, "2024-01-02T03:04:05.678Z", "QUJD" + tok, "Alice" + tok, "alice" + tok, "Alice" + tok + " ", " Alice" + tok, "Аlice" + tok, "Alice" + tok + "​", tok, tok + tok, "", "A", "a", "é" + tok, "é" + tok, "Alice" + tok + "\x00", "Alice" + tok + "\x00\x00", "\x00", "ab", "ab\x00", tok + strings.Repeat("L", 16384-len(tok)), tok + strings.Repeat("L", 16385-len(tok)), tok + strings.Repeat("M", 20000)}
 		epool := []string{"bob" + tok + "@Example.com", "bob" + tok + "@EXAMPLE.COM", "bob" + tok + "@example.com", "Bob" + tok + "@example.com", "bob" + tok + "@example.org", "bob" + tok + "@exampl.ecom"}
 		items := CoreCorpus(gg, perFile)
 		for i := range items {
-			items[i].Tree = dupify(lr, items[i].Tree, pool, epool)
-			items[i].Raw = items[i].Tree.Bytes([]jt.Style{jt.Plain, jt.GoLike, jt.Unicode}[i%3])
+			t2 := dupify(lr, items[i].Tree, pool, epool)
+			raw := t2.Bytes([]jt.Style{jt.Plain, jt.GoLike, jt.Unicode}[i%3])
+			if len(raw) > 60000 {
+				continue // keep every line below the reader's limit
+			}
+			items[i].Tree, items[i].Raw = t2, raw
 		}
 		f := fsetsPairs[fi%len(fsetsPairs)]
 		ki := fi % len(keys)
